@@ -6,6 +6,7 @@
 -/
 import VGen.TransStateRes
 import VModel.StateRes
+import VProofs.StateResSort
 namespace V.Trans.StateRes
 open V V.Json V.StateRes GoSem
 
@@ -132,6 +133,70 @@ theorem otherHeap_lt_eq_model (a b : VGen.TransStateRes.stateResV2ConflictedOthe
               cases hb : bytesLt a.eventID b.eventID
               · simp [← compareBytes_neg_iff, Bool.eq_false_iff] at hb ⊢; simpa using hb
               · simpa [compareBytes_neg_iff] using hb
+
+/-- **The Go comparator is a strict total order** (what a subtraction-based rewrite loses: seeded change C11-r8m2).
+    Stated on the function translated from the current source, for heap entries with unsigned timestamps:
+    transitive, asymmetric, and two entries neither of which comes first have the same sort key. -/
+theorem powerLevelHeap_strict_total
+    (a b c : VGen.TransStateRes.stateResV2ConflictedPowerLevel)
+    (ha : 0 ≤ a.originServerTS) (hb : 0 ≤ b.originServerTS) (hc : 0 ≤ c.originServerTS) :
+    (VGen.TransStateRes.sortStateResV2ConflictedPowerLevelHeap a b < 0 →
+        VGen.TransStateRes.sortStateResV2ConflictedPowerLevelHeap b c < 0 →
+        VGen.TransStateRes.sortStateResV2ConflictedPowerLevelHeap a c < 0) ∧
+    (VGen.TransStateRes.sortStateResV2ConflictedPowerLevelHeap a b < 0 →
+        ¬ VGen.TransStateRes.sortStateResV2ConflictedPowerLevelHeap b a < 0) ∧
+    (¬ VGen.TransStateRes.sortStateResV2ConflictedPowerLevelHeap a b < 0 →
+        ¬ VGen.TransStateRes.sortStateResV2ConflictedPowerLevelHeap b a < 0 → powerKey a = powerKey b) := by
+  have hst := V.StateRes.powerLt_strictTotal
+  have eab := powerLevelHeap_lt_eq_model a b ha hb
+  have eba := powerLevelHeap_lt_eq_model b a hb ha
+  have ebc := powerLevelHeap_lt_eq_model b c hb hc
+  have eac := powerLevelHeap_lt_eq_model a c ha hc
+  refine ⟨?_, ?_, ?_⟩
+  · intro h1 h2
+    have l1 : powerLt (powerKey a) (powerKey b) = true := by rw [← eab]; simpa using h1
+    have l2 : powerLt (powerKey b) (powerKey c) = true := by rw [← ebc]; simpa using h2
+    have l3 := hst.trans _ _ _ l1 l2
+    rw [← eac] at l3; simpa using l3
+  · intro h1 h2
+    have l1 : powerLt (powerKey a) (powerKey b) = true := by rw [← eab]; simpa using h1
+    have l2 : powerLt (powerKey b) (powerKey a) = true := by rw [← eba]; simpa using h2
+    have := hst.asymm _ _ l1
+    rw [l2] at this; cases this
+  · intro h1 h2
+    have l1 : powerLt (powerKey a) (powerKey b) = false := by rw [← eab]; simpa using h1
+    have l2 : powerLt (powerKey b) (powerKey a) = false := by rw [← eba]; simpa using h2
+    exact hst.total _ _ l1 l2
+
+theorem compareBytes_pos_iff (x y : List UInt8) : (compareBytes x y > 0) ↔ bytesLt y x = true := by
+  induction x generalizing y with
+  | nil => cases y <;> simp [compareBytes, bytesLt]
+  | cons a as ih =>
+    cases y with
+    | nil => simp [compareBytes, bytesLt]
+    | cons b bs =>
+      simp only [compareBytes, bytesLt]
+      by_cases h1 : a < b
+      · have h2 : ¬ b < a := fun h => absurd (UInt8.lt_trans h1 h) (UInt8.lt_irrefl _)
+        simp [h1, h2]
+      · by_cases h2 : b < a
+        · simp [h1, h2]
+        · simp [h1, h2, ih]
+
+/-- **version-1 tie-break** (`conflictedEventSorter.Less`, translated as a function of the two elements it reads):
+    lower depth first, and at equal depth the event whose SHA-1 is *greater* first — the model's `v1Lt`. -/
+theorem v1Less_eq_model (a b : VGen.TransStateRes.conflictedEvent) :
+    VGen.TransStateRes.Less a b = v1Lt ⟨a.depth, a.eventIDSHA1⟩ ⟨b.depth, b.eventIDSHA1⟩ := by
+  unfold VGen.TransStateRes.Less v1Lt
+  by_cases h : a.depth = b.depth
+  · simp only [h, beq_self_eq_true, if_true]
+    cases hb : bytesLt b.eventIDSHA1 a.eventIDSHA1
+    · have h2 : ¬ (compareBytes a.eventIDSHA1 b.eventIDSHA1 > 0) := by
+        rw [compareBytes_pos_iff, hb]; simp
+      simpa using h2
+    · simpa [compareBytes_pos_iff] using hb
+  · have : (a.depth == b.depth) = false := by simpa using h
+    simp [this]
 
 /-- non-vacuity: concrete entries meeting the hypotheses, ordered by the event-ID tie-break -/
 example : decide (VGen.TransStateRes.sortStateResV2ConflictedPowerLevelHeap
